@@ -34,3 +34,10 @@ def extern_of(fct, type_ids, scope_fqn):
     from dznpy.ast_view import find_fqn
     from dznpy.ast import Extern
     return find_fqn(fct, type_ids, scope_fqn).get_single_instance(Extern)
+
+
+def lookup(fct, ids, scope_fqn):
+    """the declarations the name denotes on the scope chain of scope_fqn (specification of find_fqn: specs/scoping.py,
+    proved under C14).  Symbolically an uninterpreted sequence-valued function of (name, scope)."""
+    from dznpy.ast_view import find_fqn
+    return find_fqn(fct, ids, scope_fqn).items
